@@ -706,6 +706,8 @@ func checkC07(c *core.Ctx) error {
 	checkQuadraticMin(c)
 	checkCallbackState(c)
 	checkArmijoBeforeAcceptance(c)
+	checkWolfeTerms(c)
+	checkStepMeasure(c)
 	nfun := 0
 	for _, p := range c.LibPkgs() {
 		if !strings.Contains(p.PkgPath, "/algorithm/") {
